@@ -396,7 +396,7 @@ func (p *BinaryProtocol) WriteMap(desc *proto.TypeDescriptor, val interface{}, c
 			if err := p.AppendTag(2, MapValue.WireType()); err != nil {
 				return err
 			}
-			if err := p.WriteBaseTypeWithDesc(MapValue, v, cast, NeedMessageLen, disallowUnknown, useFieldName); err != nil {
+			if err := p.WriteBaseTypeWithDesc(MapValue, v, NeedMessageLen, cast, disallowUnknown, useFieldName); err != nil {
 				return err
 			}
 			p.Buf = FinishSpeculativeLength(p.Buf, pos)
